@@ -20,7 +20,7 @@ import (
 // C03 — the reader decodes every spec-legal encoding of a datum to that datum.
 
 const c03Rule = "rapid draws of (record schema over null/boolean/int/long/float/double/bytes/string/fixed/record/array/map/unions, compatible Go target chosen node by node: " +
-	"pointer depth 0-2, integer width, float width, null.* wrappers, [N]byte, time.Time for RFC 3339 strings; 0-6 datums; per-collection block partition and size-prefix choices; " +
+	"pointer depth 0-2, integer width, float width, null.* wrappers, [N]byte, time.Time for RFC 3339 strings and for date / timestamp-millis / timestamp-micros / plain long; 0-6 datums; per-collection block partition and size-prefix choices; " +
 	"partition of records into file blocks; codec), written by the reference writer; oracle: if every integer fits its Go field ReadFile succeeds and each delivered value agrees with the datum, " +
 	"otherwise ReadFile returns an error and the records before the misfit are delivered intact; " +
 	"non-trivial = the encoding uses a multi-block collection, a size-prefixed block, null as second branch or >=2 file blocks AND the target differs from the canonical mapping in some node; distinct by case JSON hash"
@@ -181,10 +181,25 @@ func readWireFrom(rd avro.Reader, typ reflect.Type) ([]reflect.Value, error) {
 	return got, err
 }
 
+// dirtyBanks decodes the file once and closes every bank, so that the pool holds
+// recycled banks full of old values when the read under test starts (an
+// application that closes its banks, which is what they are for).
+func dirtyBanks(file []byte, typ reflect.Type) {
+	_ = protect(func() error {
+		return avro.ReadFile(bytes.NewReader(file), reflect.New(typ).Elem().Interface(), func(val unsafe.Pointer, rb *avro.ResourceBank) error {
+			rb.Close()
+			return nil
+		})
+	})
+}
+
 func runC03(c wireCase) (bool, []string, error) {
 	file, lay, st, err := buildWireFile(c)
 	if err != nil {
 		return false, nil, err
+	}
+	if len(c.Sync) > 0 && c.Sync[0]%2 == 0 {
+		dirtyBanks(file, spec.Build(c.Target))
 	}
 	nt, labels := wireLabels(c, st, len(lay.Blocks))
 	typ := spec.Build(c.Target)
@@ -288,6 +303,6 @@ func TestC03(t *testing.T) {
 		if thorough() {
 			d = 5
 		}
-		return drawWireCase(t, &gen.WireOpts{MaxDepth: d, MultiUnion: true, Drop: 8})
+		return drawWireCase(t, &gen.WireOpts{MaxDepth: d, MultiUnion: true, Drop: 8, Logical: true})
 	}, runC03)
 }
